@@ -155,8 +155,12 @@ func ZZ_C14_Schema() {
 	case 2:
 		imports = []*syntax.Import{{ID: "nowhere/at/all"}}
 	}
+	inlineT, inlineC := zzSyntaxType(zzTInt32), zzTypeChoice{base: zzTInt32}
+	if part == 5 && zzverif.Bool() {
+		inlineT, inlineC = zzDrawType(true) // the type of an inline argument field is a field type like any other
+	}
 	inline := func() syntax.Fields {
-		return syntax.Fields{{Name: "x", Tag: 1, Type: zzSyntaxType(zzTInt32)}}
+		return syntax.Fields{{Name: "x", Tag: 1, Type: inlineT}}
 	}
 	if part == 5 {
 		refN = zzTMsgM
@@ -191,14 +195,30 @@ func ZZ_C14_Schema() {
 			&syntax.Definition{Type: syntax.DefinitionService, Name: svc2, Service: &syntax.Service{Methods: []*syntax.Method{
 				{Name: meth2, Input: inline()}}}})
 	}
+	files := []*syntax.File{file}
+	if part == 1 && zzverif.Bool() {
+		// the second struct lives in another file of the same package
+		var keep []*syntax.Definition
+		file2 := &syntax.File{Path: "b.spec"}
+		for _, d := range file.Definitions {
+			if d.Name == "S2" {
+				file2.Definitions = append(file2.Definitions, d)
+			} else {
+				keep = append(keep, d)
+			}
+		}
+		file.Definitions = keep
+		files = append(files, file2)
+		zzverif.Reach("two-files")
+	}
 	x := NewContext(nil, nil)
-	_, err := x.compileFiles("pkg", "pkg", []*syntax.File{file})
+	_, err := x.compileFiles("pkg", "pkg", files)
 	if err != nil {
 		zzverif.Reach("rejected")
 		return
 	}
 	zzverif.Reach("accepted")
-	for _, c := range []zzTypeChoice{c1, c2, c3, c4} {
+	for _, c := range []zzTypeChoice{c1, c2, c3, c4, inlineC} {
 		zzverif.Assert(c.base != zzTUnknown, "unknown field or element type accepted")
 		zzverif.Assert(c.base != zzTService && c.base != zzTSubservice, "service-typed field or list element accepted")
 	}
